@@ -901,6 +901,8 @@ class Interp(Ops, B.BuiltinsMixin):
                 pass
             if is_for:
                 L.k = L.k + 1
+            if getattr(spec, "step", None):
+                spec.step(L)
             for label, f in _as_list(spec.invariant(L)):
                 st.check(f"{key[0]}/inv-keep:{key[1]}/{label}", f, kind="inv-keep")
             if var0 is not None:
